@@ -119,9 +119,10 @@ def r07_2(ctx, fx):
            if any("FuturesUnordered" in a for a in c.f.get("args", []))]
     # sequential form: `for p in protocols { p.tx.send(event).await }`
     seq = [c for c in fn.calls(r"mpsc::(bounded::)?Sender::send$") if any("InnerTransportEvent" in a for a in c.f.get("args", []))]
-    ctx.anchor("R07.2", "protocol notification sites (fan-out poll or awaited send)", len(fan) + len(seq), 1, cfg=fx.cfg)
+    drains = fanout_drains(fn)
+    ctx.anchor("R07.2", "protocol notification sites (fan-out poll or awaited send)", len(fan) + len(seq) + len(drains), 1, cfg=fx.cfg)
     after = fn.reach([s.node for s in sends], after=True)
-    late = [c for c in fan + seq if c.node in after]
+    late = [c for c in fan + seq + drains if c.node in after]
     ctx.ob("R07.2", "report_connection_closed/protocols-before-manager", not late,
            site=fn.site(sends[0].node), detail="fan-out polls reachable after the manager send: %s" % late, cfg=fx.cfg)
     # the manager send is not reachable without passing the fan-out loop's exit test (is_empty)
@@ -137,6 +138,12 @@ def r07_2(ctx, fx):
         inloop = [n for n in ex if n in r2]
         ctx.ob("R07.2", "report_connection_closed/no-exit-in-fanout-loop", not inloop,
                site=fn.site(empties[0].node), detail="exits reachable from the fan-out loop without the manager send: %s" % [fn.site(n) for n in inloop], cfg=fx.cfg)
+
+
+def fanout_drains(fn):
+    """the fan-out consumed by a combinator that polls the FuturesUnordered until it is exhausted (`futures.fold(..)`,
+    `for_each`, `collect`, `count`): it runs to completion by construction"""
+    return [c for c in fn.calls(r"StreamExt::(fold|for_each|collect|count|for_each_concurrent)$") if any("FuturesUnordered" in a for a in c.f.get("args", []))]
 
 
 def fanout_polls(fn):
@@ -171,7 +178,8 @@ def r07_6(ctx, fx):
             continue
         polls = fanout_polls(fn)
         seq = [c for c in fn.calls(r"mpsc::(bounded::)?Sender::send$") if any("InnerTransportEvent" in a for a in c.f.get("args", []))]
-        ctx.anchor("R07.6", "%s: protocol notification sites" % meth, len(polls) + len(seq), 1, cfg=fx.cfg)
+        drains = fanout_drains(fn)
+        ctx.anchor("R07.6", "%s: protocol notification sites" % meth, len(polls) + len(seq) + len(drains), 1, cfg=fx.cfg)
         # R07.8: a protocol is told with the waiting send; a `try_send` gives up on a protocol whose channel is momentarily full, and that
         # protocol then never learns about the connection (closed: stale context forever)
         holders = [fn] + nested_closures(fx, fn)
@@ -188,6 +196,10 @@ def r07_6(ctx, fx):
                 w = loop_left_early(fn, lp)
                 ctx.ob("R07.6", "%s/fan-out-runs-to-completion" % meth, w is None, site=fn.site(lp[0].node), cfg=fx.cfg,
                        detail="sequential fan-out left early at %s" % (fn.site(w) if w else None))
+            continue
+        if drains and not polls and not seq:
+            ctx.ob("R07.6", "%s/fan-out-runs-to-completion" % meth, True, site=fn.site(drains[0].node), cfg=fx.cfg,
+                   detail="the fan-out is consumed by %s, which polls the stream until it ends" % drains[0].name)
             continue
         targets = [n for n, _ in fn.exits()]
         if meth == "report_connection_closed":
@@ -323,13 +335,16 @@ def r07_10(ctx, fx):
     fn = ctx.fn(fx, "protocol::protocol_set::ProtocolSet::report_connection_established::{closure#0}", "R07.10")
     if fn is None:
         return
-    polls = fanout_polls(fn)
+    polls = fanout_polls(fn) or fanout_drains(fn)
     errs = [n for n, sh in fn.exits() if any(x.startswith("Err") for x in sh)]
     after = fn.reach([p.node for p in polls], after=True) if polls else set()
     errs = [n for n in errs if n in after]
     ctx.anchor("R07.10", "report_connection_established: fan-out polls / Err exits after the fan-out", min(len(polls), len(errs)), 1, cfg=fx.cfg)
 
     def is_counter(f, o):
+        # (the count that a `fold` over the fan-out hands back)
+        if guards.has_root(f, o, r"StreamExt::fold$") and any(f.locals[l] == "usize" for l in slice_locals(f, o)):
+            return True
         for l in slice_locals(f, o):
             ds = f.defs().get(l, [])
             if f.locals[l] == "usize" and len(ds) >= 2 and any(k == "assign" and pl["rv"]["r"] == "use" and isinstance(f.const_value(pl["rv"]["o"]), int) and "k" in pl["rv"]["o"] for _, k, pl in ds):
